@@ -13,7 +13,8 @@ impl ProtocolMessage {
     pub fn seq(&self) -> usize {
         match self {
             Self::Request(req) => req.seq,
-            _ => unimplemented!(),
+            Self::Event(event) => event.seq,
+            Self::Response(response) => response.seq,
         }
     }
 }
